@@ -78,6 +78,8 @@ def novelty_guard(model, ctx):
             if best is not None:
                 used = {x.id for x in ast.walk(best) if isinstance(x, ast.Name)} | {x.attr for x in ast.walk(best) if isinstance(x, ast.Attribute)}
                 hit = sorted(used & new_names)
+                if getattr(best, "name", None) in new_names:
+                    hit = sorted(set(hit) | {best.name})      # the construct lives in a definition the rules never saw
         except Exception:
             hit = None
         if hit:
@@ -262,6 +264,9 @@ def main(argv=None):
             print(f"  selftest: {selftest['mutants_detected']}/{selftest['mutants_applied']} must-fire mutants detected, "
                   f"{selftest['benign_silent']}/{selftest['benign_applied']} benign variants silent, "
                   f"{selftest['stale']} stale")
+            if selftest.get("fail_closed"):
+                print(f"  selftest: {selftest['fail_closed']} must-fire mutant(s) end in exit 2 because the edited code relies on "
+                      f"definitions newer than the rules (novelty guard): {selftest.get('fail_closed_ids')}")
             if selftest.get("stale_ids"):
                 print(f"  selftest stale: {selftest['stale_ids']}")
             for m in selftest.get("misses", []):
